@@ -440,3 +440,697 @@ Proof.
     cbn [length]. rewrite <- app_assoc.
     repeat split; auto; try lia.
 Qed.
+
+(* ------------------------------------------------------------- removals and move-outs *)
+
+Definition clear_at (idxs : list nat) (c : list (option item)) : list (option item) :=
+  fold_left (fun c i => set_nth i None c) idxs c.
+
+Lemma clear_at_length : forall idxs c, length (clear_at idxs c) = length c.
+Proof.
+  unfold clear_at. induction idxs as [|i idxs IH]; intros c; cbn [fold_left]; auto.
+  rewrite IH. apply set_nth_length.
+Qed.
+
+Lemma clear_at_notin : forall idxs c j, ~ In j idxs -> nth_error (clear_at idxs c) j = nth_error c j.
+Proof.
+  unfold clear_at. induction idxs as [|i idxs IH]; intros c j H; cbn [fold_left]; auto.
+  rewrite IH by (intro; apply H; right; auto). apply nth_set_nth_neq. intro; apply H; left; auto.
+Qed.
+
+Lemma clear_at_in : forall idxs c j, In j idxs -> j < length c -> nth_error (clear_at idxs c) j = Some None.
+Proof.
+  unfold clear_at. induction idxs as [|i idxs IH]; intros c j H Hl; [contradiction|]. cbn [fold_left].
+  destruct (in_dec Nat.eq_dec j idxs) as [Hin|Hin].
+  - apply IH; auto. rewrite set_nth_length. auto.
+  - fold (clear_at idxs (set_nth i None c)). rewrite clear_at_notin; auto.
+    destruct H as [E|H]; [subst|contradiction]. apply nth_set_nth_eq. auto.
+Qed.
+
+Lemma fold_step_remove : forall (item_at : nat -> item) idxs w,
+  w_panic w = false -> NoDup idxs ->
+  (forall i, In i idxs -> nth_error (w_children w) i = Some (Some (item_at i))) ->
+  let w' := fold_left step_remove idxs w in
+  w_children w' = clear_at idxs (w_children w) /\
+  w_dom w' = fold_left (fun d i => unmount_item (item_at i) d) idxs (w_dom w) /\
+  w_log w' = w_log w ++ map (fun i => EvUnmount (it_key (item_at i)) (it_gen (item_at i))) idxs /\
+  w_next w' = w_next w /\ w_gen w' = w_gen w /\ w_panic w' = false.
+Proof.
+  intros item_at idxs. induction idxs as [|i idxs IH]; intros w Hp Hnd H; cbv zeta.
+  - simpl. rewrite app_nil_r. repeat split; auto.
+  - inversion Hnd; subst. cbn [fold_left].
+    assert (step_remove w i =
+            {| w_children := set_nth i None (w_children w);
+               w_dom := unmount_item (item_at i) (w_dom w);
+               w_log := w_log w ++ [EvUnmount (it_key (item_at i)) (it_gen (item_at i))];
+               w_next := w_next w; w_gen := w_gen w; w_panic := false |}) as Es.
+    { unfold step_remove. rewrite Hp, (H i (or_introl eq_refl)). reflexivity. }
+    rewrite Es. clear Es.
+    match goal with |- context [fold_left _ _ ?w1] => set (w1' := w1) end.
+    destruct (IH w1') as [Hc [Hd [Hl [Hn [Hg Hp']]]]]; [reflexivity|auto| |].
+    { intros j Hj. unfold w1'. cbn [w_children]. rewrite nth_set_nth_neq.
+      - apply H. right. auto.
+      - intro; subst; contradiction. }
+    rewrite Hc, Hd, Hl, Hn, Hg, Hp'. unfold w1'. cbn [w_children w_dom w_log w_next w_gen map].
+    rewrite <- app_assoc. repeat split; auto.
+Qed.
+
+Lemma fold_step_take : forall (item_at : nat -> item) moves w mc,
+  w_panic w = false -> NoDup (map m_from moves) ->
+  (forall mv, In mv moves -> nth_error (w_children w) (m_from mv) = Some (Some (item_at (m_from mv)))) ->
+  let wm := fold_left step_take moves (w, mc) in
+  w_children (fst wm) = clear_at (map m_from moves) (w_children w) /\
+  snd wm = mc ++ map (fun mv => Some (item_at (m_from mv))) moves /\
+  w_dom (fst wm) = w_dom w /\ w_log (fst wm) = w_log w /\
+  w_next (fst wm) = w_next w /\ w_gen (fst wm) = w_gen w /\ w_panic (fst wm) = false.
+Proof.
+  intros item_at moves. induction moves as [|mv moves IH]; intros w mc Hp Hnd H; cbv zeta.
+  - simpl. rewrite app_nil_r. repeat split; auto.
+  - cbn [map] in Hnd. inversion Hnd; subst. cbn [fold_left].
+    assert (step_take (w, mc) mv =
+            ({| w_children := set_nth (m_from mv) None (w_children w); w_dom := w_dom w;
+                w_log := w_log w; w_next := w_next w; w_gen := w_gen w; w_panic := false |},
+             mc ++ [Some (item_at (m_from mv))])) as Es.
+    { unfold step_take. rewrite Hp, (H mv (or_introl eq_refl)). reflexivity. }
+    rewrite Es. clear Es.
+    match goal with |- context [fold_left _ _ (?w1, _)] => set (w1' := w1) end.
+    destruct (IH w1' (mc ++ [Some (item_at (m_from mv))])) as [Hc [Hm [Hd [Hl [Hn [Hg Hp']]]]]];
+      [reflexivity|auto| |].
+    { intros mv' Hj. unfold w1'. cbn [w_children]. rewrite nth_set_nth_neq.
+      - apply H. right. auto.
+      - intro E. apply H2. rewrite E. apply in_map. auto. }
+    rewrite Hc, Hm, Hd, Hl, Hn, Hg, Hp'. unfold w1'. cbn [w_children w_dom w_log w_next w_gen map].
+    rewrite <- app_assoc. repeat split; auto.
+Qed.
+
+Lemma unmount_item_diffl : forall it d, unmount_item it d = diffl d (it_nodes it).
+Proof. intros. unfold unmount_item. apply unmount_fold. Qed.
+
+Lemma render_unmount_all : forall nodes_of U (item_at : nat -> item) idxs seq,
+  good nodes_of pre post mk U -> (forall k, In k seq -> In k U) ->
+  (forall i, In i idxs -> In (it_key (item_at i)) U /\
+                          nodes_of (it_key (item_at i)) = it_nodes (item_at i)) ->
+  fold_left (fun d i => unmount_item (item_at i) d) idxs (render nodes_of pre post mk seq)
+  = render nodes_of pre post mk (diffl seq (map (fun i => it_key (item_at i)) idxs)).
+Proof.
+  intros nodes_of U item_at idxs. induction idxs as [|i idxs IH]; intros seq G HU H.
+  - simpl. rewrite diffl_nil_r. reflexivity.
+  - cbn [fold_left map]. destruct (H i (or_introl eq_refl)) as [HiU Hin].
+    rewrite unmount_item_diffl, <- Hin. rewrite (render_unmount _ _ _ _ _ G); auto.
+    rewrite IH; auto.
+    + rewrite diffl_cons. reflexivity.
+    + intros k Hk. apply remove_node_In in Hk. apply HU. tauto.
+    + intros j Hj. apply H. right. auto.
+Qed.
+
+(* ------------------------------------------------------ aligned child vectors are sorted *)
+
+Definition aligned (c : list (option item)) : Prop :=
+  forall j it, nth_error c j = Some (Some it) -> nth_error to j = Some (it_key it).
+
+Definition tgtk (k : N) : nat := match index_of k to with Some t => t | None => 0 end.
+
+Lemma set_nth_oob : forall {A} i (x : A) l, length l <= i -> set_nth i x l = l.
+Proof. induction i; destruct l; simpl; intros; auto; try lia. f_equal. apply IHi. lia. Qed.
+
+Lemma aligned_set : forall c t x, aligned c -> nth_error to t = Some (it_key x) ->
+  aligned (set_nth t (Some x) c).
+Proof.
+  intros c t x Ha Ht j it Hj. destruct (Nat.lt_ge_cases t (length c)) as [Hl|Hl].
+  - destruct (Nat.eq_dec t j) as [E|E].
+    + subst. rewrite nth_set_nth_eq in Hj; auto. inversion Hj. subst. auto.
+    + rewrite nth_set_nth_neq in Hj; auto.
+  - rewrite set_nth_oob in Hj; auto.
+Qed.
+
+Lemma aligned_sorted_gen : NoDup to -> forall c off,
+  (forall j it, nth_error c j = Some (Some it) -> nth_error to (off + j) = Some (it_key it)) ->
+  StronglySorted (fun a b => tgtk a < tgtk b) (map it_key (somes c)) /\
+  Forall (fun k => off <= tgtk k) (map it_key (somes c)).
+Proof.
+  intros Hnd. induction c as [|o c IH]; intros off H.
+  - simpl. split; constructor.
+  - destruct (IH (S off)) as [Hs Hf].
+    { intros j it Hj. rewrite Nat.add_succ_l, <- Nat.add_succ_r. apply H. exact Hj. }
+    destruct o as [it|]; cbn [somes map].
+    + assert (tgtk (it_key it) = off) as Et.
+      { unfold tgtk. rewrite (nth_index_of to off (it_key it)); auto.
+        rewrite <- (Nat.add_0_r off). apply H. reflexivity. }
+      split; constructor; auto; try lia.
+      * rewrite Et. eapply Forall_impl; [|exact Hf]. simpl. intros; lia.
+      * eapply Forall_impl; [|exact Hf]. simpl. intros; lia.
+    + split; auto. eapply Forall_impl; [|exact Hf]. simpl. intros; lia.
+Qed.
+
+Lemma aligned_sorted : NoDup to -> forall c, aligned c ->
+  StronglySorted (fun a b => tgtk a < tgtk b) (map it_key (somes c)).
+Proof. intros Hnd c Ha. apply (aligned_sorted_gen Hnd c 0). intros j it Hj. apply Ha. exact Hj. Qed.
+
+Lemma to_sorted : NoDup to -> StronglySorted (fun a b => tgtk a < tgtk b) to.
+Proof.
+  intros Hnd.
+  set (c := map (fun k => Some {| it_key := k; it_gen := 0; it_nodes := [] |}) to).
+  assert (map it_key (somes c) = to) as E.
+  { unfold c. rewrite somes_map_Some'. cbn [it_key]. apply map_id. }
+  rewrite <- E. apply aligned_sorted; auto.
+  intros j it Hj. unfold c in Hj. rewrite nth_error_map in Hj.
+  destruct (nth_error to j) as [k|]; simpl in Hj; [|discriminate]. inversion Hj. reflexivity.
+Qed.
+
+(* ------------------------------------------------------- moves that do not touch the DOM *)
+
+Lemma same_key_same_item : forall its x y, NoDup (map it_key its) -> In x its -> In y its ->
+  it_key x = it_key y -> x = y.
+Proof.
+  intros its x y Hnd Hx Hy E. pose proof (find_item_In its x Hnd Hx) as H1.
+  pose proof (find_item_In its y Hnd Hy) as H2. rewrite E in H1. congruence.
+Qed.
+
+Lemma set_nth_somes_cases : forall c t (x it : item), t < length c ->
+  In it (somes (set_nth t (Some x) c)) -> it = x \/ In it (somes c).
+Proof.
+  intros c t x it Hl Hi. apply In_somes_nth in Hi. destruct Hi as [j Hj].
+  destruct (Nat.eq_dec t j) as [E|E].
+  - subst. rewrite nth_set_nth_eq in Hj; auto. inversion Hj. auto.
+  - rewrite nth_set_nth_neq in Hj; auto. right. apply In_somes_nth. eauto.
+Qed.
+
+Lemma nondom_ok : forall its xof ms c,
+  NoDup (map it_key its) ->
+  aligned c -> (forall it, In it (somes c) -> In it its) ->
+  (forall mv, In mv ms -> nth_error to (m_to mv) = Some (it_key (xof mv)) /\ In (xof mv) its /\
+                          m_to mv < length c) ->
+  let c' := nondom_children xof ms c in
+  aligned c' /\ (forall it, In it (somes c') -> In it its) /\
+  (forall it, In it (somes c) -> In it (somes c')) /\
+  (forall mv, In mv ms -> m_dom mv = false -> In (xof mv) (somes c')) /\
+  (forall it, In it (somes c') -> In it (somes c) \/ exists mv, In mv ms /\ m_dom mv = false /\ it = xof mv).
+Proof.
+  intros its xof ms c Hnd. revert c. induction ms as [|mv ms IH]; intros c Ha Ho Hms; cbv zeta.
+  - unfold nondom_children. simpl. repeat split; auto. intros mv [].
+  - unfold nondom_children. cbn [fold_left].
+    fold (nondom_children xof ms (if m_dom mv then c else set_nth (m_to mv) (Some (xof mv)) c)).
+    destruct (Hms mv (or_introl eq_refl)) as [Hto [Hin Hlt]].
+    destruct (m_dom mv) eqn:Ed.
+    + destruct (IH c Ha Ho) as [A1 [A2 [A3 [A4 A5]]]].
+      { intros mv' Hmv'. apply Hms. right. auto. }
+      repeat split; auto.
+      * intros mv' [E|Hmv'] Hd; [subst; congruence | auto].
+      * intros it Hit. destruct (A5 it Hit) as [H|[mv' [H1 [H2 H3]]]]; auto.
+        right. exists mv'. repeat split; auto. right. auto.
+    + set (c1 := set_nth (m_to mv) (Some (xof mv)) c).
+      assert (aligned c1) as Ha1 by (apply aligned_set; auto).
+      assert (forall it, In it (somes c1) -> In it its) as Ho1.
+      { intros it Hit. apply set_nth_somes_cases in Hit; auto. destruct Hit; [subst|]; auto. }
+      assert (forall it, In it (somes c) -> In it (somes c1)) as Hmono.
+      { intros it Hit. apply In_somes_nth in Hit. destruct Hit as [j Hj]. apply In_somes_nth.
+        exists j. unfold c1. destruct (Nat.eq_dec (m_to mv) j) as [E|E].
+        - rewrite <- E in *. rewrite nth_set_nth_eq; auto.
+          pose proof (Ha _ _ Hj) as Hk. rewrite Hto in Hk. inversion Hk as [Hk'].
+          assert (In it its) as Hit by (apply Ho; apply In_somes_nth; eauto).
+          rewrite (same_key_same_item its (xof mv) it); auto.
+        - rewrite nth_set_nth_neq; auto. }
+      assert (In (xof mv) (somes c1)) as Hx1.
+      { apply In_somes_nth. exists (m_to mv). unfold c1. apply nth_set_nth_eq. auto. }
+      destruct (IH c1 Ha1 Ho1) as [A1 [A2 [A3 [A4 A5]]]].
+      { intros mv' Hmv'. destruct (Hms mv' (or_intror Hmv')) as [B1 [B2 B3]].
+        repeat split; auto. unfold c1. rewrite set_nth_length. auto. }
+      repeat split; auto.
+      * intros mv' [E|Hmv'] Hd; [subst; auto | auto].
+      * intros it Hit. destruct (A5 it Hit) as [H|[mv' [H1 [H2 H3]]]].
+        -- apply set_nth_somes_cases in H; auto. destruct H as [H|H]; auto.
+           right. exists mv. repeat split; auto. left. auto.
+        -- right. exists mv'. repeat split; auto. right. auto.
+Qed.
+
+(* --------------------------------------------------------------------- newly built items *)
+
+Lemma add_tasks_fst : forall m items adds next gen,
+  map fst (add_tasks m items next gen adds) = map a_at adds.
+Proof. induction adds as [|a adds IH]; intros; cbn [add_tasks map fst]; [|rewrite IH]; reflexivity. Qed.
+
+Lemma add_tasks_keys : forall m items adds next gen,
+  map (fun tx => it_key (snd tx)) (add_tasks m items next gen adds)
+  = map (fun a => nth (a_at a) items 0%N) adds.
+Proof. induction adds as [|a adds IH]; intros; cbn [add_tasks map snd it_key]; [|rewrite IH]; reflexivity. Qed.
+
+Lemma map_seq_shift : forall {A} (f : nat -> A) s k, map f (seq s k) = map (fun j => f (s + j)) (seq 0 k).
+Proof.
+  intros A f s k. revert s. induction k as [|k IH]; intros s; [reflexivity|].
+  cbn [seq map]. rewrite Nat.add_0_r. f_equal. rewrite IH. rewrite <- seq_shift, map_map.
+  apply map_ext. intros j. f_equal. lia.
+Qed.
+
+Lemma add_tasks_nodes : forall m items adds next gen,
+  flat_map it_nodes (map snd (add_tasks m items next gen adds))
+  = map (fun j => (next + N.of_nat j)%N) (seq 0 (m * length adds)).
+Proof.
+  induction adds as [|a adds IH]; intros next gen.
+  - cbn [add_tasks map flat_map length]. rewrite Nat.mul_0_r. reflexivity.
+  - cbn [add_tasks map flat_map snd it_nodes length]. rewrite IH.
+    rewrite Nat.mul_succ_r, Nat.add_comm, seq_app, map_app. f_equal.
+    rewrite (map_seq_shift _ (0 + m)). apply map_ext. intros j.
+    rewrite Nat.add_0_l, Nat2N.inj_add. lia.
+Qed.
+
+Lemma add_tasks_nonempty : forall m items adds next gen it, 1 <= m ->
+  In it (map snd (add_tasks m items next gen adds)) -> it_nodes it <> [].
+Proof.
+  induction adds as [|a adds IH]; intros next gen it Hm Hin; [contradiction|].
+  cbn [add_tasks map snd] in Hin. destruct Hin as [E|Hin].
+  - subst. cbn [it_nodes]. destruct m; [lia|]. discriminate.
+  - eapply IH; eauto.
+Qed.
+
+Lemma NoDup_app_intro : forall {A} (a b : list A), NoDup a -> NoDup b ->
+  (forall x, In x a -> ~ In x b) -> NoDup (a ++ b).
+Proof.
+  induction a as [|x a IH]; intros b Ha Hb H; auto. simpl. inversion Ha; subst.
+  constructor.
+  - intro Hc. apply in_app_or in Hc. destruct Hc; [contradiction|]. eapply H; eauto. left. auto.
+  - apply IH; auto. intros y Hy. apply H. right. auto.
+Qed.
+
+Lemma fresh_nodes_NoDup : forall next K,
+  NoDup (map (fun j => (next + N.of_nat j)%N) (seq 0 K)).
+Proof.
+  intros. apply FinFun.Injective_map_NoDup; [|apply seq_NoDup].
+  intros x y E. apply N.add_cancel_l in E. apply Nat2N.inj. exact E.
+Qed.
+
+Lemma wf_extend : forall next its news K,
+  wf_items pre post mk next its ->
+  NoDup (map it_key news) -> (forall k, In k (map it_key news) -> ~ In k (map it_key its)) ->
+  flat_map it_nodes news = map (fun j => (next + N.of_nat j)%N) (seq 0 K) ->
+  (forall it, In it news -> it_nodes it <> []) ->
+  wf_items pre post mk (next + N.of_nat K)%N (its ++ news).
+Proof.
+  intros next its news K [Hk Hd Hne Hfr] Hnk Hdisj Hflat Hnn.
+  assert (forall n, In n (flat_map it_nodes news) -> (next <= n < next + N.of_nat K)%N) as Hrange.
+  { intros n Hn. rewrite Hflat in Hn. apply in_map_iff in Hn. destruct Hn as [j [E Hj]].
+    apply in_seq in Hj. subst. lia. }
+  constructor.
+  - rewrite map_app. apply NoDup_app_intro; auto. intros k H1 H2. eapply Hdisj; eauto.
+  - rewrite flat_map_app.
+    eapply Permutation_NoDup with (l := flat_map it_nodes news ++ pre ++ flat_map it_nodes its ++ mk :: post).
+    + eapply perm_trans; [apply Permutation_app_swap_app|]. apply Permutation_app_head.
+      rewrite <- app_assoc. apply Permutation_app_swap_app.
+    + apply NoDup_app_intro; auto.
+      * rewrite Hflat. apply fresh_nodes_NoDup.
+      * intros n Hn Hc. apply Hrange in Hn. apply Hfr in Hc. lia.
+  - intros it Hit. apply in_app_or in Hit. destruct Hit; auto.
+  - intros n Hn. rewrite flat_map_app in Hn.
+    assert (In n (pre ++ flat_map it_nodes its ++ mk :: post) \/ In n (flat_map it_nodes news)) as [H|H].
+    { rewrite !in_app_iff in *. tauto. }
+    + apply Hfr in H. lia.
+    + apply Hrange in H. lia.
+Qed.
+
+(* ------------------------------------------------------------ the general case, assembled *)
+
+(** [apply_diff] once [diff] said: no clear, removals [r], single moves [ms], additions [a] *)
+Definition apply_general (m : nat) (r : list nat) (ms : list mv) (a : list addop)
+                         (items : list N) (w : work) : work :=
+  let w := fold_left step_remove r w in
+  let '(w, mc) := fold_left step_take ms (w, []) in
+  let w := with_children w (w_children w ++ repeat None (length a)) in
+  let w := fold_left (step_nondom mc) (enumerate_from 0 ms) w in
+  let w := fold_left (step_dom mk mc) (enumerate_from 0 ms) w in
+  let w := fold_left (step_add m mk items) a w in
+  with_children w (map Some (somes (w_children w))).
+
+Lemma apply_diff_general : forall m d r ms a items w,
+  d_clear d = false -> d_removed d = r -> d_added d = a -> unpack_moves d = (ms, a) ->
+  apply_diff m mk d items w = apply_general m r ms a items w.
+Proof.
+  intros m d r ms a items w Hc Hr Ha Hu. unfold apply_diff, apply_general.
+  rewrite Hc, Hr, Ha, Hu. cbn [andb]. reflexivity.
+Qed.
+
+Section Main.
+Variable m : nat.
+Hypothesis Hm : 1 <= m.
+Variable its : list item.
+Variable next : N.
+Variable gen : nat.
+Hypothesis Hwf : wf_items pre post mk next its.
+Hypothesis Hto : NoDup to.
+Variable r : list nat.
+Variable ms : list mv.
+Variable a : list addop.
+Hypothesis LS : loop_spec (map it_key its) to (Nat.max (length (map it_key its)) (length to)) 0 None r ms a.
+
+Let from := map it_key its.
+Let dummy : item := {| it_key := 0%N; it_gen := 0; it_nodes := [] |}.
+Let item_at (i : nat) : item := nth i its dummy.
+Let xof (mv : mv) : item := item_at (m_from mv).
+Let tasksA := add_tasks m to next gen a.
+Let news := map snd tasksA.
+Let all := its ++ news.
+Let nodes_of := nodes_in all.
+Let U := map it_key all.
+
+Lemma from_nth : forall i f, nth_error from i = Some f ->
+  nth_error its i = Some (item_at i) /\ it_key (item_at i) = f /\ In (item_at i) its /\ i < length its.
+Proof.
+  intros i f H. unfold from in H. rewrite nth_error_map in H.
+  destruct (nth_error its i) as [it|] eqn:E; simpl in H; [|discriminate]. inversion H. subst.
+  assert (item_at i = it) as Ei by (unfold item_at; apply nth_error_nth; auto).
+  rewrite Ei. repeat split; auto.
+  - eapply nth_error_In; eauto.
+  - apply nth_error_Some. congruence.
+Qed.
+
+Lemma from_nodup : NoDup from.
+Proof. exact (wf_keys _ _ _ _ _ Hwf). Qed.
+
+Lemma ms_facts : forall mv, In mv ms ->
+  m_from mv < length its /\ nth_error its (m_from mv) = Some (xof mv) /\ In (xof mv) its /\
+  nth_error from (m_from mv) = Some (it_key (xof mv)) /\
+  index_of (it_key (xof mv)) to = Some (m_to mv) /\
+  nth_error to (m_to mv) = Some (it_key (xof mv)) /\ m_to mv < length to /\ In (it_key (xof mv)) to.
+Proof.
+  intros mv Hmv. pose proof (ls_mv_ok _ _ _ _ _ _ _ _ LS) as H. rewrite Forall_forall in H.
+  destruct (H mv Hmv) as [_ [_ [f [Hf Hi]]]]. fold from in Hf.
+  destruct (from_nth _ _ Hf) as [H1 [H2 [H3 H4]]]. unfold xof. rewrite H2.
+  pose proof (index_of_nth _ _ _ Hi) as Hn.
+  repeat split; auto.
+  - eapply index_of_Some_lt; eauto.
+  - eapply nth_error_In; eauto.
+Qed.
+
+Lemma froms_nodup : NoDup (map m_from ms).
+Proof. apply StronglySorted_lt_NoDup. exact (ls_mv_sorted _ _ _ _ _ _ _ _ LS). Qed.
+
+Lemma r_facts : forall i, In i r ->
+  nth_error its i = Some (item_at i) /\ In (item_at i) its /\ ~ In (it_key (item_at i)) to.
+Proof.
+  intros i Hi. apply (ls_rem _ _ _ _ _ _ _ _ LS) in Hi. destruct Hi as [_ [f [Hf Hn]]].
+  fold from in Hf. destruct (from_nth _ _ Hf) as [H1 [H2 [H3 H4]]]. rewrite H2. auto.
+Qed.
+
+Lemma r_nodup : NoDup r.
+Proof. apply StronglySorted_lt_NoDup. exact (ls_rem_sorted _ _ _ _ _ _ _ _ LS). Qed.
+
+Lemma a_facts : forall x, In x a ->
+  a_mode x = Normal /\ exists t, nth_error to (a_at x) = Some t /\ ~ In t from /\ nth (a_at x) to 0%N = t.
+Proof.
+  intros x Hx. pose proof (ls_add_mode _ _ _ _ _ _ _ _ LS) as Hmo. rewrite Forall_forall in Hmo.
+  split; [auto|]. assert (In (a_at x) (map a_at a)) as Hi by (apply in_map; auto).
+  apply (ls_add _ _ _ _ _ _ _ _ LS) in Hi. destruct Hi as [_ [t [Ht Hn]]]. exists t.
+  repeat split; auto. apply nth_error_nth. auto.
+Qed.
+
+(** every index of [to] is within the resized child vector *)
+Lemma to_length_bound : length to <= length its + length a.
+Proof.
+  assert (length (filter (fun k => memN k from) to) <= length from) as H1.
+  { apply NoDup_incl_length; [apply NoDup_filter; auto|]. intros k Hk. apply filter_In in Hk.
+    apply memN_In. tauto. }
+  assert (length (filter (fun k => negb (memN k from)) to) <= length a) as H2.
+  { rewrite <- (map_length (fun x => nth (a_at x) to 0%N) a).
+    apply NoDup_incl_length; [apply NoDup_filter; auto|]. intros k Hk. apply filter_In in Hk.
+    destruct Hk as [Hk Hn]. apply negb_true_iff, memN_false in Hn.
+    apply In_nth_error in Hk. destruct Hk as [j Hj].
+    assert (In j (map a_at a)) as Hja.
+    { apply (ls_add _ _ _ _ _ _ _ _ LS). split; [|eauto]. split; [lia|].
+      assert (j < length to) by (apply nth_error_Some; congruence). lia. }
+    apply in_map_iff in Hja. destruct Hja as [x [Ex Hx]]. apply in_map_iff. exists x. split; auto.
+    rewrite Ex. apply nth_error_nth. auto. }
+  assert (length to = length (filter (fun k => memN k from) to)
+                      + length (filter (fun k => negb (memN k from)) to)) as H3.
+  { clear. induction to as [|k l IH]; [reflexivity|]. cbn [filter]. destruct (memN k from); simpl; lia. }
+  unfold from in *. rewrite map_length in H1. lia.
+Qed.
+
+Lemma news_keys : map it_key news = map (fun x => nth (a_at x) to 0%N) a.
+Proof. unfold news, tasksA. rewrite map_map. apply add_tasks_keys. Qed.
+
+Lemma news_key_facts : forall k, In k (map it_key news) -> In k to /\ ~ In k from.
+Proof.
+  intros k Hk. rewrite news_keys in Hk. apply in_map_iff in Hk. destruct Hk as [x [E Hx]].
+  destruct (a_facts x Hx) as [_ [t [Ht [Hn En]]]]. rewrite <- E, En. split; auto.
+  eapply nth_error_In; eauto.
+Qed.
+
+Lemma news_keys_nodup : NoDup (map it_key news).
+Proof.
+  rewrite news_keys.
+  pose proof (ls_add_sorted _ _ _ _ _ _ _ _ LS) as Hs.
+  assert (forall x, In x a -> nth_error to (a_at x) = Some (nth (a_at x) to 0%N)) as Hn.
+  { intros x Hx. destruct (a_facts x Hx) as [_ [t [Ht [_ En]]]]. congruence. }
+  clear - Hs Hn Hto. induction a as [|x l IH]; [constructor|]. cbn [map] in *.
+  inversion Hs as [|? ? Hs' Hf]; subst. constructor.
+  - intro Hc. apply in_map_iff in Hc. destruct Hc as [y [E Hy]].
+    assert (a_at y = a_at x).
+    { pose proof (Hn x (or_introl eq_refl)) as H1. pose proof (Hn y (or_intror Hy)) as H2.
+      rewrite <- E in H1. eapply NoDup_nth_error; eauto.
+      - apply nth_error_Some. congruence.
+      - congruence. }
+    rewrite Forall_forall in Hf. specialize (Hf (a_at y) (in_map a_at l y Hy)). lia.
+  - apply IH; auto. intros y Hy. apply Hn. right. auto.
+Qed.
+
+Lemma wf_all : wf_items pre post mk (next + N.of_nat (m * length a))%N all.
+Proof.
+  unfold all. apply wf_extend; auto.
+  - apply news_keys_nodup.
+  - intros k Hk. apply news_key_facts in Hk. tauto.
+  - unfold news, tasksA. apply add_tasks_nodes.
+  - intros it Hit. eapply add_tasks_nonempty; eauto.
+Qed.
+
+Lemma good_all : good nodes_of pre post mk U.
+Proof. unfold nodes_of, U. eapply good_of_wf. apply wf_all. Qed.
+
+Lemma all_nodes : forall it, In it all -> nodes_of (it_key it) = it_nodes it /\ In (it_key it) U /\ it_nodes it <> [].
+Proof.
+  intros it Hit. repeat split.
+  - unfold nodes_of. apply nodes_in_item; auto. exact (wf_keys _ _ _ _ _ wf_all).
+  - unfold U. apply in_map. auto.
+  - exact (wf_nonempty _ _ _ _ _ wf_all it Hit).
+Qed.
+
+Let c2 := clear_at (map m_from ms) (clear_at r (map Some its)).
+Let c3 := c2 ++ repeat None (length a).
+Let c4 := nondom_children xof ms c3.
+Let rkeys := map (fun i => it_key (item_at i)) r.
+Let seq1 := diffl from rkeys.
+
+Lemma c2_length : length c2 = length its.
+Proof. unfold c2. rewrite !clear_at_length, map_length. reflexivity. Qed.
+
+Lemma c3_length : length c3 = length its + length a.
+Proof. unfold c3. rewrite app_length, c2_length, repeat_length. reflexivity. Qed.
+
+Lemma c3_nth : forall j it, nth_error c3 j = Some (Some it) <->
+  (nth_error its j = Some it /\ ~ In j r /\ ~ In j (map m_from ms)).
+Proof.
+  intros j it. unfold c3. destruct (Nat.lt_ge_cases j (length c2)) as [Hl|Hl].
+  - rewrite nth_error_app1 by auto. unfold c2.
+    destruct (in_dec Nat.eq_dec j (map m_from ms)) as [Hf|Hf].
+    { rewrite clear_at_in; auto.
+      - split; [discriminate | tauto].
+      - rewrite clear_at_length, map_length. rewrite c2_length in Hl. auto. }
+    rewrite clear_at_notin by auto.
+    destruct (in_dec Nat.eq_dec j r) as [Hr|Hr].
+    { rewrite clear_at_in; auto.
+      - split; [discriminate | tauto].
+      - rewrite map_length. rewrite c2_length in Hl. auto. }
+    rewrite clear_at_notin by auto. rewrite nth_error_map.
+    destruct (nth_error its j); simpl; split.
+    + intros H. inversion H. auto.
+    + intros [H _]. congruence.
+    + discriminate.
+    + intros [H _]. discriminate.
+  - rewrite nth_error_app2 by auto. split.
+    + intros H. exfalso.
+      assert (In (Some it) (repeat (@None item) (length a))) as Hin by (eapply nth_error_In; eauto).
+      apply repeat_spec in Hin. discriminate.
+    + intros [H _]. exfalso. rewrite c2_length in Hl.
+      assert (j < length its) by (apply nth_error_Some; congruence). lia.
+Qed.
+
+Lemma not_removed_in_to : forall j f, nth_error from j = Some f -> ~ In j r -> In f to.
+Proof.
+  intros j f Hf Hr. destruct (in_dec N.eq_dec f to) as [H|H]; auto. exfalso. apply Hr.
+  apply (ls_rem _ _ _ _ _ _ _ _ LS). split; [|fold from; eauto].
+  assert (j < length from) by (apply nth_error_Some; congruence). unfold from in *. lia.
+Qed.
+
+Lemma kept_fixed_target : forall j f, nth_error from j = Some f -> ~ In j r -> ~ In j (map m_from ms) ->
+  nth_error to j = Some f.
+Proof.
+  intros j f Hf Hr Hm'. pose proof (not_removed_in_to _ _ Hf Hr) as Hin.
+  destruct (index_of_In _ _ Hin) as [t Ht].
+  destruct (Nat.eq_dec t j) as [E|E].
+  - subst. apply index_of_nth. auto.
+  - exfalso. apply Hm'. eapply (ls_mv_all _ _ _ _ _ _ _ _ LS); eauto.
+    assert (j < length from) by (apply nth_error_Some; congruence). unfold from in *. lia.
+Qed.
+
+Lemma its_from : forall j it, nth_error its j = Some it -> nth_error from j = Some (it_key it) /\ it = item_at j.
+Proof.
+  intros j it H. split.
+  - unfold from. apply map_nth_error. auto.
+  - unfold item_at. symmetry. apply nth_error_nth. auto.
+Qed.
+
+Lemma c3_aligned : aligned c3.
+Proof.
+  intros j it Hj. apply c3_nth in Hj. destruct Hj as [Hi [Hr Hm']].
+  destruct (its_from _ _ Hi) as [Hf _]. eapply kept_fixed_target; eauto.
+Qed.
+
+Lemma c3_old : forall it, In it (somes c3) -> In it its.
+Proof.
+  intros it Hit. apply In_somes_nth in Hit. destruct Hit as [j Hj]. apply c3_nth in Hj.
+  destruct Hj as [Hi _]. eapply nth_error_In; eauto.
+Qed.
+
+Lemma c4_facts :
+  aligned c4 /\ (forall it, In it (somes c4) -> In it its) /\
+  (forall it, In it (somes c3) -> In it (somes c4)) /\
+  (forall mv, In mv ms -> m_dom mv = false -> In (xof mv) (somes c4)) /\
+  (forall it, In it (somes c4) -> In it (somes c3) \/ exists mv, In mv ms /\ m_dom mv = false /\ it = xof mv).
+Proof.
+  unfold c4. apply (nondom_ok its); auto.
+  - exact (wf_keys _ _ _ _ _ Hwf).
+  - apply c3_aligned.
+  - apply c3_old.
+  - intros mv Hmv. destruct (ms_facts mv Hmv) as [H1 [H2 [H3 [H4 [H5 [H6 [H7 H8]]]]]]].
+    repeat split; auto. rewrite c3_length. pose proof to_length_bound. lia.
+Qed.
+
+Lemma domb_false_iff : forall i, domb ms i = false <-> (forall mv, In mv ms -> m_from mv = i -> m_dom mv = false).
+Proof.
+  intros i. unfold domb. split.
+  - intros H mv Hmv E. destruct (m_dom mv) eqn:Ed; auto.
+    assert (existsb (fun m0 => (m_from m0 =? i) && m_dom m0) ms = true) as Hc.
+    { apply existsb_exists. exists mv. split; auto. rewrite E, Nat.eqb_refl, Ed. reflexivity. }
+    congruence.
+  - intros H. apply not_true_is_false. intro Hc. apply existsb_exists in Hc.
+    destruct Hc as [mv [Hmv Hb]]. apply andb_true_iff in Hb. destruct Hb as [H1 H2].
+    apply Nat.eqb_eq in H1. rewrite (H mv Hmv H1) in H2. discriminate.
+Qed.
+
+Lemma ms_from_inj : forall mv mv', In mv ms -> In mv' ms -> m_from mv = m_from mv' -> mv = mv'.
+Proof.
+  pose proof froms_nodup as Hnd. clear - Hnd. induction ms as [|x l IH]; intros mv mv' H1 H2 E; [contradiction|].
+  cbn [map] in Hnd. inversion Hnd; subst. destruct H1 as [H1|H1]; destruct H2 as [H2|H2]; subst; auto.
+  - exfalso. apply H3. rewrite E. apply in_map. auto.
+  - exfalso. apply H3. rewrite <- E. apply in_map. auto.
+Qed.
+
+(** the keys placed before any DOM move are exactly those of the items left in place *)
+Lemma c4_keys : forall i f, nth_error from i = Some f ->
+  (In f (map it_key (somes c4)) <-> statb from to ms i = true).
+Proof.
+  intros i f Hf. destruct c4_facts as [A1 [A2 [A3 [A4 A5]]]]. pose proof from_nodup as Hnd.
+  destruct (from_nth _ _ Hf) as [Hi [Hk [Hin Hlt]]]. unfold statb. split.
+  - intros H. apply in_map_iff in H. destruct H as [it [Ek Hit]].
+    destruct (A5 it Hit) as [H3|[mv [Hmv [Hd Ex]]]].
+    + apply In_somes_nth in H3. destruct H3 as [j Hj]. apply c3_nth in Hj. destruct Hj as [Hj [Hr Hm']].
+      destruct (its_from _ _ Hj) as [Hfj _]. rewrite Ek in Hfj.
+      assert (i = j) as -> by (eapply nodup_nth_inj; eauto).
+      apply andb_true_iff. split.
+      * unfold retb. rewrite Hf. apply memN_In. eapply not_removed_in_to; eauto.
+      * apply negb_true_iff. apply domb_false_iff. intros mv Hmv E. exfalso. apply Hm'.
+        rewrite <- E. apply in_map. auto.
+    + destruct (ms_facts mv Hmv) as [M1 [M2 [M3 [M4 [M5 [M6 [M7 M8]]]]]]].
+      subst it. rewrite Ek in M4.
+      assert (i = m_from mv) as -> by (eapply nodup_nth_inj; eauto).
+      apply andb_true_iff. split.
+      * unfold retb. rewrite Hf. apply memN_In. rewrite <- Ek. auto.
+      * apply negb_true_iff. apply domb_false_iff. intros mv' Hmv' E.
+        rewrite (ms_from_inj mv' mv); auto.
+  - intros H. apply andb_true_iff in H. destruct H as [Hr Hd]. apply negb_true_iff in Hd.
+    unfold retb in Hr. rewrite Hf in Hr. apply memN_In in Hr.
+    destruct (in_dec Nat.eq_dec i (map m_from ms)) as [Hm'|Hm'].
+    + apply in_map_iff in Hm'. destruct Hm' as [mv [E Hmv]].
+      pose proof (proj1 (domb_false_iff i) Hd mv Hmv E) as Hdm.
+      apply in_map_iff. exists (xof mv). split; auto. unfold xof. rewrite E. auto.
+    + assert (~ In i r) as Hnr.
+      { intro Hc. destruct (r_facts i Hc) as [_ [_ Hn]]. apply Hn. rewrite Hk. auto. }
+      apply in_map_iff. exists (item_at i). split; auto. apply A3. apply In_somes_nth. exists i.
+      apply c3_nth. auto.
+Qed.
+
+Lemma stat_seq_from : filter (statb from to ms) (seq 0 (Nat.max (length from) (length to)))
+                      = filter (statb from to ms) (seq 0 (length from)).
+Proof.
+  assert (Nat.max (length from) (length to) = length from + (Nat.max (length from) (length to) - length from)) as E by lia.
+  rewrite E, seq_app, filter_app. rewrite (filter_all_false _ (seq (0 + length from) _)).
+  - apply app_nil_r.
+  - intros i Hi. apply in_seq in Hi. unfold statb, retb.
+    assert (nth_error from i = None) as -> by (apply nth_error_None; lia). reflexivity.
+Qed.
+
+Lemma tgt_tgtk : forall i, i < length from -> tgt from to i = tgtk (nth i from 0%N).
+Proof.
+  intros i Hi. unfold tgt, tgtk. rewrite (nth_error_nth' from 0%N Hi). reflexivity.
+Qed.
+
+Lemma stat_sorted :
+  StronglySorted (fun x y => tgtk x < tgtk y)
+                 (filter (fun k => memN k (map it_key (somes c4))) from).
+Proof.
+  pose proof from_nodup as Hnd.
+  rewrite <- (list_map_nth from 0%N) at 1. rewrite filter_map_swap.
+  apply StronglySorted_map.
+  assert (filter (fun i => memN (nth i from 0%N) (map it_key (somes c4))) (seq 0 (length from))
+          = filter (statb from to ms) (seq 0 (length from))) as ->.
+  { apply filter_ext_in. intros i Hi. apply in_seq in Hi.
+    assert (nth_error from i = Some (nth i from 0%N)) as Hf by (apply nth_error_nth'; lia).
+    pose proof (c4_keys i _ Hf) as Hk.
+    destruct (statb from to ms i); destruct (memN (nth i from 0%N) (map it_key (somes c4))) eqn:E; auto.
+    - apply memN_false in E. exfalso. apply E. apply Hk. reflexivity.
+    - apply memN_In in E. apply Hk in E. discriminate. }
+  pose proof (ls_stat_sorted _ _ _ _ _ _ _ _ LS) as Hs. fold from in Hs. rewrite stat_seq_from in Hs.
+  eapply sorted_strengthen; [exact Hs | apply NoDup_filter; apply seq_NoDup |].
+  intros x y Hx Hy Hxy Hle. apply filter_In in Hx, Hy. destruct Hx as [Hx Sx]. destruct Hy as [Hy Sy].
+  apply in_seq in Hx, Hy. rewrite <- !tgt_tgtk by lia.
+  cbv beta in Hle. assert (tgt from to x <> tgt from to y); [|lia].
+  unfold statb in Sx, Sy. apply andb_true_iff in Sx, Sy. destruct Sx as [Rx _]. destruct Sy as [Ry _].
+  unfold retb in Rx, Ry. unfold tgt.
+  destruct (nth_error from x) as [fx|] eqn:Ex; [|discriminate].
+  destruct (nth_error from y) as [fy|] eqn:Ey; [|discriminate].
+  apply memN_In in Rx, Ry. destruct (index_of_In _ _ Rx) as [tx Tx]. destruct (index_of_In _ _ Ry) as [ty Ty].
+  rewrite Tx, Ty. intro E. subst ty. apply index_of_nth in Tx, Ty. rewrite Tx in Ty. inversion Ty. subst fy.
+  apply Hxy. eapply nodup_nth_inj; eauto.
+Qed.
+
+Lemma seq1_facts : NoDup seq1 /\ (forall k, In k seq1 <-> In k from /\ In k to).
+Proof.
+  split.
+  - unfold seq1, diffl. apply NoDup_filter. apply from_nodup.
+  - intros k. unfold seq1. rewrite diffl_In. split.
+    + intros [Hf Hn]. split; auto. apply In_nth_error in Hf. destruct Hf as [j Hj].
+      eapply not_removed_in_to; eauto. intro Hc. apply Hn. unfold rkeys. apply in_map_iff. exists j.
+      split; auto. destruct (from_nth _ _ Hj) as [_ [Hk _]]. auto.
+    + intros [Hf Ht]. split; auto. unfold rkeys. intro Hc. apply in_map_iff in Hc.
+      destruct Hc as [i [E Hi]]. destruct (r_facts i Hi) as [_ [_ Hn]]. apply Hn. rewrite E. auto.
+Qed.
+
+Lemma inv4 : inv nodes_of U seq1 c4 (render nodes_of pre post mk seq1).
+Proof.
+  destruct c4_facts as [A1 [A2 [A3 [A4 A5]]]]. destruct seq1_facts as [S1 S2].
+  constructor; auto.
+  - apply good_all.
+  - intros k Hk. apply S2 in Hk. unfold U, all. rewrite map_app. apply in_or_app. left. tauto.
+  - intros it Hit. assert (In it all) as Hall by (unfold all; apply in_or_app; left; auto).
+    destruct (all_nodes it Hall) as [H1 [H2 H3]]. auto.
+  - (* the items left in place are in the same order in [from] and in [to] *)
+    apply (sorted_unique tgtk).
+    + unfold seq1, diffl. rewrite filter_filter.
+      rewrite (filter_ext _ (fun x => memN x (map it_key (somes c4)) && negb (memN x rkeys)))
+        by (intros; apply andb_comm).
+      rewrite <- filter_filter. apply StronglySorted_filter. apply stat_sorted.
+    + apply aligned_sorted; auto.
+    + intros k. rewrite filter_In. split; [intros [_ H]; apply memN_In; auto|].
+      intros Hk. split; [|apply memN_In; auto]. apply S2.
+      apply in_map_iff in Hk. destruct Hk as [it [Ek Hit]]. split.
+      * rewrite <- Ek. unfold from. apply in_map. auto.
+      * apply In_somes_nth in Hit. destruct Hit as [j Hj]. apply A1 in Hj. rewrite <- Ek.
+        eapply nth_error_In; eauto.
+Qed.
